@@ -164,8 +164,19 @@ void app_process(lp_id_t me, simtime_t now, unsigned type, const void *pl, unsig
 		else if(r->draws[i] == 1) {
 			double d = Random();
 			a = mix(a, vh_double_to_bits(d));
-		} else
+		} else if(r->draws[i] == 2)
 			a = mix(a, (uint64_t)RandomRange(0, 9) + 1);
+		/* draws through libm (no Gallina twin: programs using them are compared implementation against implementation) */
+		else if(r->draws[i] == 3)
+			a = mix(a, vh_double_to_bits(Expent(1.5)));
+		else if(r->draws[i] == 4)
+			a = mix(a, vh_double_to_bits(Normal()));
+		else if(r->draws[i] == 5)
+			a = mix(a, vh_double_to_bits(Gamma(1 + (unsigned)(a % 9))));
+		else if(r->draws[i] == 6)
+			a = mix(a, (uint64_t)Zipf(1.5, 100));
+		else
+			a = mix(a, (uint64_t)RandomRangeNonUniform(3, 0, 9) + 1);
 	}
 	for(int i = 0; i < r->nmem; ++i) {
 		uint64_t op = r->mem[i][0], sl = r->mem[i][1], n = r->mem[i][2];
